@@ -1736,7 +1736,16 @@ func (s *Store) ExecuteTransaction(transaction *Transaction) error {
 		datasetNames = append(datasetNames, k)
 	}
 	sort.Strings(datasetNames)
+	// core.Dataset comes last: every writer updates its counter in core.Dataset while it holds its own
+	// dataset's lock, so core.Dataset's lock is always the inner one
+	for i, k := range datasetNames {
+		if k == "core.Dataset" {
+			datasetNames = append(append(datasetNames[:i:i], datasetNames[i+1:]...), k)
+			break
+		}
+	}
 
+	coreLocked := false
 	for _, k := range datasetNames {
 		dataset, ok := s.datasets.Load(k)
 		if !ok {
@@ -1747,7 +1756,17 @@ func (s *Store) ExecuteTransaction(transaction *Transaction) error {
 
 		dataset.(*Dataset).WriteLock.Lock()
 		// release lock at end regardless
-		defer dataset.(*Dataset).WriteLock.Unlock()
+		if k == "core.Dataset" {
+			// ... unless it has been released before the counters are updated (see below)
+			coreLocked = true
+			defer func() {
+				if coreLocked {
+					dataset.(*Dataset).WriteLock.Unlock()
+				}
+			}()
+		} else {
+			defer dataset.(*Dataset).WriteLock.Unlock()
+		}
 	}
 
 	txnTime := time.Now().UnixNano()
@@ -1775,6 +1794,13 @@ func (s *Store) ExecuteTransaction(transaction *Transaction) error {
 	err = txn.Commit()
 	if err != nil {
 		return err
+	}
+
+	// the counters are stored in core.Dataset: when the transaction itself wrote to core.Dataset its lock must be
+	// free again by now (its own write is committed), or the counter update would wait for this very call
+	if coreLocked {
+		datasets["core.Dataset"].WriteLock.Unlock()
+		coreLocked = false
 	}
 
 	// update the txn counts
